@@ -360,7 +360,7 @@ def malformed_in_time(ctx):
 
 
 def run(ctx):
-    ctx.check_proofs(["MPilot.Props.C10", "MPilot.Props.C10Reject", "MPilot.Props.Findings"])
+    ctx.check_proofs(["MPilot.Props.C10", "MPilot.Props.C10Reject", "MPilot.Props.C10Shape", "MPilot.Props.Findings"])
     if not malformed_in_time(ctx):
         return ctx.finish(rule="malformed-text probe only: the parser did not answer in time", explanation="the in-process streams were not run")
     model = common.Model()
